@@ -33,6 +33,7 @@ type updProg struct {
 	SrcPtr   bool `json:"srcPtr"`
 	IgnoreA  bool `json:"ignoreA"`
 	RetErr   bool `json:"retErr"`
+	Comb     bool `json:"comb"`
 }
 
 type defProg struct {
@@ -101,7 +102,7 @@ func cmdStruct(args []string) {
 	b := hx.NewBatch(*work)
 	b.WriteGoMod()
 	var src strings.Builder
-	src.WriteString("package p\n\nimport \"" + b.Mod + "/q\"\n\nvar _ q.TQ\n\nfunc Fn(x int) int { return x }\n\ntype DS struct {\n\tA int\n\tB int\n}\ntype DT struct {\n\tA int\n\tB int\n}\ntype FPS struct{ V int }\ntype UN struct{ X int }\ntype UNI struct {\n\tX     int\n\tExtra interface{}\n}\ntype USI struct{ N UNI }\ntype UTI struct{ N UNI }\ntype US struct {\n\tA int\n\tN UN\n\tP *int\n\tL []int\n}\ntype UT struct {\n\tA  int\n\tN  UN\n\tP  *int\n\tL  []int\n\tLS []string\n}\n\nfunc ToS(v []int) []string {\n\tif v == nil {\n\t\treturn []string{\"nil\"}\n\t}\n\treturn []string{\"7\"}\n}\n\ntype Money struct{ V int }\ntype Price struct{ V int }\ntype Cost struct{ V int }\ntype DS2 struct {\n\tA int\n\tM Money\n\tN Money\n}\ntype DT2 struct {\n\tA int\n\tM Price\n\tN Cost\n}\n\nfunc NewT2() *DT2 { return &DT2{A: 100} }\n\nfunc NewDL() []*struct{ A int } { return nil }\n\ntype DR struct {\n\tV    int\n\tKids []DR\n}\ntype DRO struct {\n\tV    int\n\tKeep int\n\tKids []DRO\n}\n\nfunc NewDRO() *DRO { return &DRO{Keep: 100} }\n\ntype DV struct{ V int }\ntype DVO struct {\n\tV    int\n\tKeep int\n}\n\nfunc NewDVO() *DVO { return &DVO{Keep: 100} }\n")
+	src.WriteString("package p\n\nimport \"" + b.Mod + "/q\"\n\nvar _ q.TQ\n\nfunc Fn(x int) int { return x }\n\ntype DS struct {\n\tA int\n\tB int\n}\ntype DT struct {\n\tA int\n\tB int\n}\ntype FPS struct{ V int }\ntype UN struct{ X int }\ntype UNI struct {\n\tX     int\n\tExtra interface{}\n}\ntype USI struct{ N UNI }\ntype UTI struct{ N UNI }\ntype UTags map[string]int\ntype US struct {\n\tA  int\n\tN  UN\n\tP  *int\n\tL  []int\n\tM  map[string]int\n\tNM UTags\n}\ntype UT struct {\n\tA  int\n\tN  UN\n\tP  *int\n\tL  []int\n\tLS []string\n\tM  map[string]int\n\tNM UTags\n}\n\nfunc ToS(v []int) []string {\n\tif v == nil {\n\t\treturn []string{\"nil\"}\n\t}\n\treturn []string{\"7\"}\n}\n\ntype Money struct{ V int }\ntype Price struct{ V int }\ntype Cost struct{ V int }\ntype DS2 struct {\n\tA int\n\tM Money\n\tN Money\n}\ntype DT2 struct {\n\tA int\n\tM Price\n\tN Cost\n}\n\nfunc NewT2() *DT2 { return &DT2{A: 100} }\n\nfunc NewDL() []*struct{ A int } { return nil }\n\ntype DR struct {\n\tV    int\n\tKids []DR\n}\ntype DRO struct {\n\tV    int\n\tKeep int\n\tKids []DRO\n}\n\nfunc NewDRO() *DRO { return &DRO{Keep: 100} }\n\ntype DV struct{ V int }\ntype DVO struct {\n\tV    int\n\tKeep int\n}\n\nfunc NewDVO() *DVO { return &DVO{Keep: 100} }\n")
 	type drvCall struct {
 		Args []any `json:"args"`
 		Dump []int `json:"dump"`
@@ -110,6 +111,9 @@ func cmdStruct(args []string) {
 	fprogs := make([]fieldProg, len(scens))
 	uprogs := make([]updProg, len(scens))
 	dprogs := make([]defProg, len(scens))
+	var srcSP strings.Builder
+	srcSP.WriteString("package sp\n\ntype SS struct {\n\tOpen   int\n\tsecret int\n}\ntype TS struct {\n\tOpen   int\n\tsecret int\n}\n")
+	samePkg := map[int]bool{}
 	head := func(i int) string {
 		return fmt.Sprintf("// goverter:output:file ../gen/c%d.go\n// goverter:output:package %s/gen\n", i, b.Mod)
 	}
@@ -179,6 +183,15 @@ func cmdStruct(args []string) {
 					src.WriteString("\t// goverter:ignoreMissing\n")
 				}
 				fmt.Fprintf(&src, "\tConv(source XS%d) XT%d\n}\n", i, i)
+			case "nonstruct":
+				st, tt := "[]XS%d", "[]XT%d"
+				switch q["tgt"] {
+				case "ptrptr":
+					st, tt = "XS%d", "**XT%d"
+				case "map":
+					st, tt = "map[string]XS%d", "map[string]XT%d"
+				}
+				fmt.Fprintf(&src, "\ntype XS%d struct {\n\tA     int\n\tInner struct{ B int }\n}\ntype XT%d struct{ A int }\n\n// goverter:converter\n%stype C%d interface {\n\t// goverter:%s\n\tConv(source "+st+") "+tt+"\n}\n", i, i, head(i), i, q["line"], i, i)
 			case "method":
 				fields := "Other int"
 				if q["field"] != "none" {
@@ -218,6 +231,20 @@ func cmdStruct(args []string) {
 				src.WriteString("}\n")
 			}
 		case "acc":
+			if s.Side == "same-package" {
+				// the converter lives in package sp and is generated into sp itself
+				fmt.Fprintf(&srcSP, "\n// goverter:converter\n// goverter:output:file ./c%d.go\n// goverter:output:package %s/sp\ntype C%d interface {\n", i, b.Mod, i)
+				switch s.Setting {
+				case "ignore":
+					srcSP.WriteString("\t// goverter:ignore secret\n")
+				case "ignoreUnexported":
+					srcSP.WriteString("\t// goverter:ignoreUnexported\n")
+				}
+				srcSP.WriteString("\tConv(source SS) TS\n}\n")
+				drvLines[i]["ins"] = []any{stv(lit(5), lit(6))}
+				samePkg[i] = true
+				continue
+			}
 			st, tt := "q.SQ1", "q.TQ"
 			line := ""
 			if s.Side == "target-unexported" {
@@ -318,6 +345,10 @@ func cmdStruct(args []string) {
 				src.WriteString("// goverter:skipCopySameType\n")
 			}
 			fmt.Fprintf(&src, "%stype C%d interface {\n\t// goverter:update target\n", head(i), i)
+			if p.Comb {
+				src.WriteString("\t// goverter:update:ignoreZeroValueField\n")
+				p.Basic, p.Struct, p.Nillable = false, false, false
+			}
 			if p.Basic {
 				src.WriteString("\t// goverter:update:ignoreZeroValueField:basic\n")
 			}
@@ -340,8 +371,11 @@ func cmdStruct(args []string) {
 				ret = " error"
 			}
 			fmt.Fprintf(&src, "\tUpdate(source %s, target *UT)%s\n}\n", st, ret)
+			mapv := func(n int) any {
+				return map[string]any{"k": "m", "a": "i", "kv": []any{[]any{map[string]any{"k": "b", "tok": "#k"}, lit(n)}}}
+			}
 			pre := func() any {
-				return ptrv(stv(lit(9), stv(lit(9)), ptrv(lit(9)), map[string]any{"k": "s", "a": "i", "es": []any{lit(9)}}, map[string]any{"k": "s", "a": "i", "es": []any{map[string]any{"k": "b", "tok": "#9"}}}))
+				return ptrv(stv(lit(9), stv(lit(9)), ptrv(lit(9)), map[string]any{"k": "s", "a": "i", "es": []any{lit(9)}}, map[string]any{"k": "s", "a": "i", "es": []any{map[string]any{"k": "b", "tok": "#9"}}}, mapv(9), mapv(9)))
 			}
 			calls := []drvCall{}
 			for _, nz := range s.Vals {
@@ -358,7 +392,14 @@ func cmdStruct(args []string) {
 				if has(nz, "L") {
 					l = map[string]any{"k": "s", "a": "i", "es": []any{lit(7)}}
 				}
-				var sv any = stv(a, n, pv, l)
+				mv, nmv := any(nilv()), any(nilv())
+				if has(nz, "M") {
+					mv = mapv(7)
+				}
+				if has(nz, "NM") {
+					nmv = mapv(7)
+				}
+				var sv any = stv(a, n, pv, l, mv, nmv)
 				if p.SrcPtr {
 					sv = ptrv(sv)
 				}
@@ -370,14 +411,22 @@ func cmdStruct(args []string) {
 			drvLines[i]["calls"] = calls
 		}
 	}
-	hx.WriteTree(*work, map[string]string{"p/in.go": src.String(),
+	hx.WriteTree(*work, map[string]string{"p/in.go": src.String(), "sp/in.go": srcSP.String(),
 		"q/q.go": "package q\n\ntype SQ1 struct {\n\tOpen int\n\tB    int\n}\ntype TQ struct {\n\tOpen   int\n\tsecret int\n}\ntype SQ2 struct {\n\thidden int\n\tB      int\n}\ntype TQ2 struct{ Open int }\n\nfunc (t TQ) Secret() int { return t.secret }\nfunc NewSQ2(h int) SQ2 { return SQ2{hidden: h} }\n"})
 	t0 := time.Now()
-	outs, err := hx.GenerateEach(hx.GenConfig(*work, []string{"./p"}, nil))
+	all, err := hx.GenerateEach(hx.GenConfig(*work, []string{"./p", "./sp"}, nil))
 	hx.Must(err)
 	b.Timing["gen"] = time.Since(t0)
-	if len(outs) != len(scens) {
+	if len(all) != len(scens) {
 		panic("result count mismatch")
+	}
+	outs := make([]hx.Outcome, len(scens))
+	for _, o := range all {
+		var k int
+		if _, err := fmt.Sscanf(o.Name, "C%d", &k); err != nil {
+			panic("cannot attribute outcome " + o.Name)
+		}
+		outs[k] = o
 	}
 	drvScen := filepath.Join(*work, "drv.ndjson")
 	w, err := hx.NewNDWriter(drvScen)
@@ -390,7 +439,9 @@ func cmdStruct(args []string) {
 				m = "Update"
 			}
 			b.Reg[i] = fmt.Sprintf("reflect.ValueOf((&gen.C%dImpl{}).%s)", i, m)
-			if scens[i].Kind == "acc" {
+			if samePkg[i] {
+				b.Reg[i] = fmt.Sprintf("reflect.ValueOf((&sp.C%dImpl{}).%s)", i, m)
+			} else if scens[i].Kind == "acc" {
 				drvLines[i]["ins"] = []any{}
 			}
 			if scens[i].Kind == "fieldx" && len(drvLines[i]["ins"].([]any)) > 0 {
@@ -402,7 +453,13 @@ func cmdStruct(args []string) {
 		}
 	}
 	w.Close()
-	hx.Must(b.BuildDriver(nil, false))
+	var extra []string
+	for i := range samePkg {
+		if b.OK[i] {
+			extra = []string{"sp \"" + b.Mod + "/sp\""}
+		}
+	}
+	hx.Must(b.BuildDriver(extra, false))
 	recs, _, err := b.RunDriver(drvScen, "seq")
 	hx.Must(err)
 	byID := map[int][]map[string]any{}
@@ -447,6 +504,15 @@ func cmdStruct(args []string) {
 			obs.Write(base)
 		case "acc":
 			base["side"], base["setting"] = s.Side, s.Setting
+			base["res"] = map[string]any{"open": -1, "secret": -1}
+			for _, r := range byID[i] {
+				nExec++
+				if r["panic"] != true {
+					if f, ok := r["out"].(map[string]any)["fs"].([]any); ok && len(f) == 2 {
+						base["res"] = map[string]any{"open": litOf(f[0]), "secret": litOf(f[1])}
+					}
+				}
+			}
 			obs.Write(base)
 		case "fieldx":
 			base["prog"] = s.Prog
@@ -529,7 +595,7 @@ func cmdStruct(args []string) {
 			}
 		case "update":
 			if o.Gen != "ok" || badc {
-				base["prog"], base["panic"], base["srcNil"], base["nonzero"], base["post"] = s.Prog, false, false, []string{}, []string{"other", "other", "other", "other", "other"}
+				base["prog"], base["panic"], base["srcNil"], base["nonzero"], base["post"] = s.Prog, false, false, []string{}, []string{"other", "other", "other", "other", "other", "other", "other"}
 				obs.Write(base)
 				continue
 			}
@@ -547,7 +613,28 @@ func cmdStruct(args []string) {
 					nz = s.Vals[j]
 				}
 				rec["nonzero"] = nz
-				post := []string{"other", "other", "other", "other", "other"}
+				post := []string{"other", "other", "other", "other", "other", "other", "other"}
+				if r["panic"] != true {
+					t := r["after"].([]any)[0].(map[string]any)["e"].(map[string]any)["fs"].([]any)
+					for k, f := range []string{"M", "NM"} {
+						mf := t[5+k].(map[string]any)
+						switch {
+						case mf["k"] == "nil":
+							if !has(nz, f) {
+								post[5+k] = "conv" // the nil source map was assigned
+							}
+						default:
+							if kv := mf["kv"].([]any); len(kv) == 1 {
+								switch v := litOf(kv[0].([]any)[1]); {
+								case v == 9:
+									post[5+k] = "keep"
+								case v == 7 && has(nz, f):
+									post[5+k] = "conv"
+								}
+							}
+						}
+					}
+				}
 				if r["panic"] != true {
 					t := r["after"].([]any)[0].(map[string]any)["e"].(map[string]any)["fs"].([]any)
 					want := func(f string) int {
